@@ -45,7 +45,10 @@ type c1canon struct {
 }
 
 // c1node: a node's own description (children cut out) and its full canonical form.
-type c1node struct{ own, full string }
+type c1node struct {
+	own, full string
+	childErr  string // class of the descendant's error the node reports ("" if none)
+}
 
 func c1errClass(b *adt.Bottom) string {
 	switch b.Code {
@@ -292,7 +295,11 @@ func (k *c1canon) vertex(v *adt.Vertex, sb *strings.Builder) {
 		defer func() {
 			own := k.owns[len(k.owns)-1].String()
 			k.owns = k.owns[:len(k.owns)-1]
-			k.paths[path] = c1node{own, sb.String()[start:]}
+			n := c1node{own: own, full: sb.String()[start:]}
+			if b, ok := v.BaseValue.(*adt.Bottom); ok && b.ChildError {
+				n.childErr = c1errClass(b)
+			}
+			k.paths[path] = n
 		}()
 	}
 
